@@ -140,3 +140,53 @@ void h_regexec(void)
 	__CPROVER_assert(0, "canary");
 #endif
 }
+
+/* ================================================================== parser: rnode_atom (C11) */
+/* PAT_OK: regcomp is only reached through rset_make(), which wraps every pattern as "(" ... ")":
+ * the string is NUL-terminated at g_sl, non-empty, and its last byte is ')' (unit rset.rset_make).
+ * A pointer into it is "inside" when its offset is in [0, g_sl]. */
+#define PAT_IN(p)	(__CPROVER_same_object((p), g_pat) && (long) __CPROVER_POINTER_OFFSET(p) >= 0 && (long) __CPROVER_POINTER_OFFSET(p) <= g_sl)
+char *g_pat;
+struct rnode g_node_obj;
+
+/* ratom_read as seen by rnode_atom: consumes at least one byte, stays inside the pattern (unit rx.ratom_read) */
+void ratom_read_contract(struct ratom *ra, char **pat)
+__CPROVER_requires(ra != 0 && pat != 0 && PAT_IN(*pat) && (*pat)[0] != 0)
+__CPROVER_assigns(*ra, *pat)
+__CPROVER_ensures(PAT_IN(*pat) && (long) __CPROVER_POINTER_OFFSET(*pat) > (long) __CPROVER_POINTER_OFFSET(__CPROVER_old(*pat)))
+;
+/* rnode_grp as seen by rnode_atom: NULL, or a node (mincnt = maxcnt = 1); stays inside the pattern */
+struct rnode *rnode_grp_contract(char **pat)
+__CPROVER_requires(pat != 0 && PAT_IN(*pat) && (*pat)[0] == '(')
+__CPROVER_assigns(*pat, g_node_obj)
+__CPROVER_ensures(PAT_IN(*pat) && (long) __CPROVER_POINTER_OFFSET(*pat) > (long) __CPROVER_POINTER_OFFSET(__CPROVER_old(*pat)))
+__CPROVER_ensures(__CPROVER_return_value == 0 || (__CPROVER_return_value == &g_node_obj && g_node_obj.mincnt == 1 && g_node_obj.maxcnt == 1))
+;
+void rnode_free_contract(struct rnode *rnode)
+__CPROVER_requires(rnode != 0)
+__CPROVER_assigns()
+;
+
+struct rnode *rnode_atom_contract(char **pat)
+__CPROVER_requires(__CPROVER_is_fresh(pat, sizeof(char *)))
+__CPROVER_requires(1 <= g_sl && g_sl <= RX_MAXL && __CPROVER_is_fresh(*pat, g_sl + 1) && (*pat)[g_sl] == 0 && (*pat)[g_sl - 1] == ')' && g_pat == *pat)
+__CPROVER_assigns(*pat, g_node_obj)
+/* the parser never leaves the pattern string, whatever bytes it holds */
+__CPROVER_ensures(PAT_IN(*pat))
+/* repetition bounds: a node that is returned has sane bounds within the supported number of repetitions
+ * (bad, inverted or oversized bounds reject the pattern) */
+__CPROVER_ensures(__CPROVER_return_value != 0 ==> (0 <= __CPROVER_return_value->mincnt && __CPROVER_return_value->mincnt <= NREPS &&
+	(__CPROVER_return_value->maxcnt == -1 || (__CPROVER_return_value->mincnt <= __CPROVER_return_value->maxcnt && __CPROVER_return_value->maxcnt <= NREPS))))
+;
+
+void h_rnode_atom(void)
+{
+	char **pat;
+	GHOST_INIT();
+	g_sl = nondet_long();
+	g_pat = nondet_ptr();
+	rnode_atom(pat);
+#ifdef CANARY
+	__CPROVER_assert(0, "canary");
+#endif
+}
